@@ -3,4 +3,6 @@
 .type f13_0,@function
 f13_0:
   ret
+  mov wvsv1@GOTPCREL(%rip),%rax
+  mov wvsv0(%rip),%rax
   ret
